@@ -102,6 +102,13 @@ def _builder_components(fn):
             for x in e.elts:
                 rec(x, d + 1)
             return
+        if isinstance(e, ast.Call) and isinstance(e.func, ast.Name):
+            # a module level namedtuple that carries the path next to other values: its fields, as a tuple display would
+            t = fn.canon.as_tuple(e)
+            if t is not None and t is not e:
+                for x in t.elts:
+                    rec(x, d + 1)
+                return
         if isinstance(e, ast.IfExp):
             rec(e.body, d + 1)
             rec(e.orelse, d + 1)
